@@ -462,7 +462,7 @@ def parse_pairs(s):
 
 def model_agrees(cases):
     """cases: [(slots, rows)] -> list of (case index, op index) where the model differs."""
-    shard = 30
+    shard = 80
     texts = [coq_cases(cases[i:i + shard]) for i in range(0, len(cases), shard)]
     outs = coq_eval_many('c05', texts, timeout=900)
     bad = []
@@ -506,8 +506,8 @@ def run(run: Run):
     run.cov['a1_checked_at_every_cycle'] = True
 
     quick = run.tier == 'quick'
-    n_driven = 150 if quick else 800
-    n_free = 40 if quick else 200
+    n_driven = 120 if quick else 800
+    n_free = 30 if quick else 200
     maxops = 26 if quick else 40
     cases = []
     reported = set()
